@@ -74,7 +74,7 @@ and exec_hist (toks : string list) : string list =
             | "c" -> Some (CloneHandle kn) | "d" -> Some (DropHandle kn)
             | "g" -> if region_known then Some (RegionDb kn) else None
             | "r" -> if region_known then Some (MkReader kn) else None
-            | "R" -> Some (DropReader kn) | "b" -> Some (SpawnBg kn) | "B" -> Some (FinishBg kn)
+            | "R" -> Some (DropReader kn) | "b" -> Some (SpawnBg kn) | "B" | "E" -> Some (FinishBg kn)
             | _ -> failwith "op" in
           (match o with
            | None -> emit "skip"
